@@ -467,6 +467,19 @@ def _run_doc(req):
         phase["vclass"] = vclass_of(data)
         return data
     yaml.constructor.BaseConstructor.get_single_data = get_single_data
+    # an implementation need not go through get_single_data: the construction of a document is observed as well
+    o_cd = yaml.constructor.BaseConstructor.construct_document
+
+    def construct_document(self, node):
+        try:
+            data = o_cd(self, node)
+        except BaseException as e:
+            phase["doc_exc"] = e
+            raise
+        phase["doc_returned"] = True
+        phase["doc_vclass"] = vclass_of(data)
+        return data
+    yaml.constructor.BaseConstructor.construct_document = construct_document
 
     import cobald.daemon.core.config as cfg
     before = set(sys.modules)
@@ -481,6 +494,12 @@ def _run_doc(req):
     finally:
         os.unlink(fh.name)
     yaml.constructor.BaseConstructor.get_single_data = o_gsd
+    yaml.constructor.BaseConstructor.construct_document = o_cd
+    if not phase["returned"] and phase["exc"] is None:
+        if phase.get("doc_returned"):
+            phase["returned"], phase["vclass"] = True, phase.get("doc_vclass")
+        elif phase.get("doc_exc") is not None:
+            phase["exc"] = phase["doc_exc"]
     res = {"outcome": outcome, "yaml_returned": phase["returned"], "fired": sorted(set(fired))}
     if phase["exc"] is not None:
         res["yaml_error"] = err_class(phase["exc"])
@@ -802,8 +821,35 @@ IGNORED = {
 }
 
 
+# the tag sits in ANOTHER document of the same stream (a configuration is one document: PyYAML's get_single_data refuses
+# a stream of several before constructing anything).  Oracle only: the model's input is one composed document.
+TRAILING = {
+    "second_document": HEAD + "--- NODE\n",
+    "after_document_end": HEAD + "...\n--- NODE\n",
+    "after_empty_document": HEAD + "---\n--- NODE\n",
+    "first_of_two": "--- NODE\n---\n" + HEAD,
+}
+
+
+# a rejected document that ALSO has a well-formed logging section naming a handler class: nothing of it may be acted
+# upon (reject role only - for an accepted document the logging section is of course applied)
+_LOGSEC = "logging: {version: 1, handlers: {c: {class: c18_canary_mod.Canary}}, root: {handlers: [c]}}\n"
+WITH_LOGGING = {
+    "logging_before": _LOGSEC + "pipeline: [ NODE ]\n",
+    "logging_after": "pipeline:\n  - !C18Lazy {a: NODE}\n" + _LOGSEC,
+    "logging_and_section": HEAD + "c18section: {x: NODE}\n" + _LOGSEC,
+}
+
+
 def corpus_docs():
     docs = []
+    for (pykind, target, shape, txt) in node_variants():
+        for pos, tpl in WITH_LOGGING.items():
+            docs.append({"kind": "doc", "role": "reject", "position": pos, "pykind": pykind, "target": target,
+                         "shape": shape, "text": tpl.replace("NODE", txt)})
+        for pos, tpl in TRAILING.items():
+            docs.append({"kind": "doc", "role": "reject", "position": pos, "pykind": pykind, "target": target,
+                         "shape": shape, "text": tpl.replace("NODE", txt), "stream": True})
     for pos, tpl in POSITIONS.items():
         docs.append({"kind": "doc", "role": "control", "position": pos, "pykind": "control", "target": None,
                      "text": tpl.replace("NODE", "c18ctl")})
@@ -1189,6 +1235,8 @@ _FALSE_CASE = ("(mkCase (mkTables nil None nil None false) nil nil (Scalar nil n
 
 
 def coq_case(case, obs):
+    if case.get("stream"):
+        return None         # several documents in one stream: oracle only
     if "harness_error" in obs or "tree" not in obs:
         return _FALSE_CASE
     valid = clist("(%s, %s)" % (cN(i), cstr(t)) for i, t in obs["valid"]) if obs["valid"] else "nil"
